@@ -126,8 +126,33 @@ for case in payload['cases']:
             t1 = json.dumps(transcript(case, work, reverse=rf), sort_keys=False, default=str)
             t2 = json.dumps(transcript(case, work, reverse=not rf), sort_keys=False, default=str)
             after = battery.dump_tables()
-            out.append({'transcript': t1, 'repeat_equal': t1 == t2, 'db_unchanged': before == after,
-                        'sha': hashlib.sha256(t1.encode()).hexdigest()})
+            rec = {'transcript': t1, 'repeat_equal': t1 == t2, 'db_unchanged': before == after,
+                   'sha': hashlib.sha256(t1.encode()).hexdigest()}
+            # the same database with a schema this version does not know (an extra index): every call must be refused,
+            # the first time and every later time (a call that fails must not change what later calls do)
+            import shutil
+            import sqlite3
+            alt = os.path.join(work, 'altered')
+            os.makedirs(alt)
+            wn._db.connect().commit()
+            iutil.close_pool()
+            shutil.copy(str(wn.config.database_path), os.path.join(alt, 'wn.db'))
+            con = sqlite3.connect(os.path.join(alt, 'wn.db'))
+            con.execute('CREATE INDEX verif_extra_index ON forms (script)')
+            con.commit()
+            con.close()
+            old_dir = wn.config.data_directory
+            wn.config.data_directory = alt
+            rounds = []
+            for _ in range(3):
+                r1 = call(wn.synsets)
+                r2 = call(lambda: [lx.specifier() for lx in wn.lexicons()])
+                r3 = call(wn.words)
+                rounds.append([[r1[0], r1[1] if r1[0] != 'ok' else len(r1[1])], r2, [r3[0], r3[1] if r3[0] != 'ok' else len(r3[1])]])
+            rec['altered_schema_rounds'] = rounds
+            iutil.close_pool()
+            wn.config.data_directory = old_dir
+            out.append(rec)
     finally:
         import shutil
         shutil.rmtree(work, ignore_errors=True)
